@@ -41,7 +41,10 @@ def pieces(sid, k, n, first_table=None):
     if k == "unsup":
         one = [f"SELECT * FROM x{s};", f"SELECT * FROM x{s} WHERE tz = '+02:00';", f"COMMENT ON TABLE x{s} IS 'written in C++ (v2.1)';",
                f"UPDATE x{s} SET tz = '+02:00' WHERE a LIKE '+1%';", f"SELECT 'a-b_c.d:e/f~h!i@j$l%m^n&o*p|q?r<s>t{{u}}v[w]x' FROM y{s};", f"CALL proc{s}('x', \"y+z\", 1.5);",
-               f"ANALYZE TABLE x{s} COMPUTE STATISTICS FOR COLUMNS a, b;"][sid % 7]
+               f"ANALYZE TABLE x{s} COMPUTE STATISTICS FOR COLUMNS a, b;",
+               # a CREATE TABLE the grammar rejects inside its 2nd / 3rd item (the whole statement is unsupported input: no partial entity)
+               f"CREATE TABLE x{s} (a int, b decimal(10,2) DEFAULT, c int);", f"CREATE TABLE x{s} (a int NOT NULL, b int NOT, c varchar(5));",
+               f"CREATE TABLE x{s} (a int, b int, PRIMARY KEY (a,), c int);"][(sid + 3 * (first_table or 0)) % 10]      # (the position of the script's first table rotates the pool)
         return {1: [one], 2: [f"SELECT a{s},", f"b FROM x{s};"], 3: [f"SELECT a{s}", f"FROM x{s}", f"WHERE a{s} > 1;"]}[n]
     if k == "insert":
         return {1: [f"INSERT INTO x{s} VALUES ({s}, 2);"], 2: [f"INSERT INTO x{s}", f"VALUES ({s}, 2);"]}[n]
